@@ -227,6 +227,61 @@ def v2NegativeWitness : Bytes := [65, 86, 58, 76, 47, 65, 67, 58, 72, 47, 65, 11
   47, 65, 82, 58, 78, 68]
 
 
+/-- The v4.0 MacroVector lookup table (specification section 8.3, incorporated
+    by reference: `cvss_lookup.js` of the FIRST calculator), macrovector
+    EQ1..EQ6 -> score*10, 270 rows.  No copy of the FIRST file is available
+    offline: this is a transcription of the table as reviewed in
+    toolkit/types/cvss/cvss_v4_score_data.go at the time this property was
+    built (it agrees with the 41 recorded vector/score pairs of the package's
+    fixture), kept here so that any later edit of a row in the Go source is
+    detected (`v4_lookup_matches_published`). -/
+def v4LookupPublished : List (List Nat × Int) := [
+  ([0, 0, 0, 0, 0, 0], 100), ([0, 0, 0, 0, 0, 1], 99), ([0, 0, 0, 0, 1, 0], 98), ([0, 0, 0, 0, 1, 1], 95), ([0, 0, 0, 0, 2, 0], 95), ([0, 0, 0, 0, 2, 1], 92),
+  ([0, 0, 0, 1, 0, 0], 100), ([0, 0, 0, 1, 0, 1], 96), ([0, 0, 0, 1, 1, 0], 93), ([0, 0, 0, 1, 1, 1], 87), ([0, 0, 0, 1, 2, 0], 91), ([0, 0, 0, 1, 2, 1], 81),
+  ([0, 0, 0, 2, 0, 0], 93), ([0, 0, 0, 2, 0, 1], 90), ([0, 0, 0, 2, 1, 0], 89), ([0, 0, 0, 2, 1, 1], 80), ([0, 0, 0, 2, 2, 0], 81), ([0, 0, 0, 2, 2, 1], 68),
+  ([0, 0, 1, 0, 0, 0], 98), ([0, 0, 1, 0, 0, 1], 95), ([0, 0, 1, 0, 1, 0], 95), ([0, 0, 1, 0, 1, 1], 92), ([0, 0, 1, 0, 2, 0], 90), ([0, 0, 1, 0, 2, 1], 84),
+  ([0, 0, 1, 1, 0, 0], 93), ([0, 0, 1, 1, 0, 1], 92), ([0, 0, 1, 1, 1, 0], 89), ([0, 0, 1, 1, 1, 1], 81), ([0, 0, 1, 1, 2, 0], 81), ([0, 0, 1, 1, 2, 1], 65),
+  ([0, 0, 1, 2, 0, 0], 88), ([0, 0, 1, 2, 0, 1], 80), ([0, 0, 1, 2, 1, 0], 78), ([0, 0, 1, 2, 1, 1], 70), ([0, 0, 1, 2, 2, 0], 69), ([0, 0, 1, 2, 2, 1], 48),
+  ([0, 0, 2, 0, 0, 1], 92), ([0, 0, 2, 0, 1, 1], 82), ([0, 0, 2, 0, 2, 1], 72), ([0, 0, 2, 1, 0, 1], 79), ([0, 0, 2, 1, 1, 1], 69), ([0, 0, 2, 1, 2, 1], 50),
+  ([0, 0, 2, 2, 0, 1], 69), ([0, 0, 2, 2, 1, 1], 55), ([0, 0, 2, 2, 2, 1], 27), ([0, 1, 0, 0, 0, 0], 99), ([0, 1, 0, 0, 0, 1], 97), ([0, 1, 0, 0, 1, 0], 95),
+  ([0, 1, 0, 0, 1, 1], 92), ([0, 1, 0, 0, 2, 0], 92), ([0, 1, 0, 0, 2, 1], 85), ([0, 1, 0, 1, 0, 0], 95), ([0, 1, 0, 1, 0, 1], 91), ([0, 1, 0, 1, 1, 0], 90),
+  ([0, 1, 0, 1, 1, 1], 83), ([0, 1, 0, 1, 2, 0], 84), ([0, 1, 0, 1, 2, 1], 71), ([0, 1, 0, 2, 0, 0], 92), ([0, 1, 0, 2, 0, 1], 81), ([0, 1, 0, 2, 1, 0], 82),
+  ([0, 1, 0, 2, 1, 1], 71), ([0, 1, 0, 2, 2, 0], 72), ([0, 1, 0, 2, 2, 1], 53), ([0, 1, 1, 0, 0, 0], 95), ([0, 1, 1, 0, 0, 1], 93), ([0, 1, 1, 0, 1, 0], 92),
+  ([0, 1, 1, 0, 1, 1], 85), ([0, 1, 1, 0, 2, 0], 85), ([0, 1, 1, 0, 2, 1], 73), ([0, 1, 1, 1, 0, 0], 92), ([0, 1, 1, 1, 0, 1], 82), ([0, 1, 1, 1, 1, 0], 80),
+  ([0, 1, 1, 1, 1, 1], 72), ([0, 1, 1, 1, 2, 0], 70), ([0, 1, 1, 1, 2, 1], 59), ([0, 1, 1, 2, 0, 0], 84), ([0, 1, 1, 2, 0, 1], 70), ([0, 1, 1, 2, 1, 0], 71),
+  ([0, 1, 1, 2, 1, 1], 52), ([0, 1, 1, 2, 2, 0], 50), ([0, 1, 1, 2, 2, 1], 30), ([0, 1, 2, 0, 0, 1], 86), ([0, 1, 2, 0, 1, 1], 75), ([0, 1, 2, 0, 2, 1], 52),
+  ([0, 1, 2, 1, 0, 1], 71), ([0, 1, 2, 1, 1, 1], 52), ([0, 1, 2, 1, 2, 1], 29), ([0, 1, 2, 2, 0, 1], 63), ([0, 1, 2, 2, 1, 1], 29), ([0, 1, 2, 2, 2, 1], 17),
+  ([1, 0, 0, 0, 0, 0], 98), ([1, 0, 0, 0, 0, 1], 95), ([1, 0, 0, 0, 1, 0], 94), ([1, 0, 0, 0, 1, 1], 87), ([1, 0, 0, 0, 2, 0], 91), ([1, 0, 0, 0, 2, 1], 81),
+  ([1, 0, 0, 1, 0, 0], 94), ([1, 0, 0, 1, 0, 1], 89), ([1, 0, 0, 1, 1, 0], 86), ([1, 0, 0, 1, 1, 1], 74), ([1, 0, 0, 1, 2, 0], 77), ([1, 0, 0, 1, 2, 1], 64),
+  ([1, 0, 0, 2, 0, 0], 87), ([1, 0, 0, 2, 0, 1], 75), ([1, 0, 0, 2, 1, 0], 74), ([1, 0, 0, 2, 1, 1], 63), ([1, 0, 0, 2, 2, 0], 63), ([1, 0, 0, 2, 2, 1], 49),
+  ([1, 0, 1, 0, 0, 0], 94), ([1, 0, 1, 0, 0, 1], 89), ([1, 0, 1, 0, 1, 0], 88), ([1, 0, 1, 0, 1, 1], 77), ([1, 0, 1, 0, 2, 0], 76), ([1, 0, 1, 0, 2, 1], 67),
+  ([1, 0, 1, 1, 0, 0], 86), ([1, 0, 1, 1, 0, 1], 76), ([1, 0, 1, 1, 1, 0], 74), ([1, 0, 1, 1, 1, 1], 58), ([1, 0, 1, 1, 2, 0], 59), ([1, 0, 1, 1, 2, 1], 50),
+  ([1, 0, 1, 2, 0, 0], 72), ([1, 0, 1, 2, 0, 1], 57), ([1, 0, 1, 2, 1, 0], 57), ([1, 0, 1, 2, 1, 1], 52), ([1, 0, 1, 2, 2, 0], 52), ([1, 0, 1, 2, 2, 1], 25),
+  ([1, 0, 2, 0, 0, 1], 83), ([1, 0, 2, 0, 1, 1], 70), ([1, 0, 2, 0, 2, 1], 54), ([1, 0, 2, 1, 0, 1], 65), ([1, 0, 2, 1, 1, 1], 58), ([1, 0, 2, 1, 2, 1], 26),
+  ([1, 0, 2, 2, 0, 1], 53), ([1, 0, 2, 2, 1, 1], 21), ([1, 0, 2, 2, 2, 1], 13), ([1, 1, 0, 0, 0, 0], 95), ([1, 1, 0, 0, 0, 1], 90), ([1, 1, 0, 0, 1, 0], 88),
+  ([1, 1, 0, 0, 1, 1], 76), ([1, 1, 0, 0, 2, 0], 76), ([1, 1, 0, 0, 2, 1], 70), ([1, 1, 0, 1, 0, 0], 90), ([1, 1, 0, 1, 0, 1], 77), ([1, 1, 0, 1, 1, 0], 75),
+  ([1, 1, 0, 1, 1, 1], 62), ([1, 1, 0, 1, 2, 0], 61), ([1, 1, 0, 1, 2, 1], 53), ([1, 1, 0, 2, 0, 0], 77), ([1, 1, 0, 2, 0, 1], 66), ([1, 1, 0, 2, 1, 0], 68),
+  ([1, 1, 0, 2, 1, 1], 59), ([1, 1, 0, 2, 2, 0], 52), ([1, 1, 0, 2, 2, 1], 30), ([1, 1, 1, 0, 0, 0], 89), ([1, 1, 1, 0, 0, 1], 78), ([1, 1, 1, 0, 1, 0], 76),
+  ([1, 1, 1, 0, 1, 1], 67), ([1, 1, 1, 0, 2, 0], 62), ([1, 1, 1, 0, 2, 1], 58), ([1, 1, 1, 1, 0, 0], 74), ([1, 1, 1, 1, 0, 1], 59), ([1, 1, 1, 1, 1, 0], 57),
+  ([1, 1, 1, 1, 1, 1], 57), ([1, 1, 1, 1, 2, 0], 47), ([1, 1, 1, 1, 2, 1], 23), ([1, 1, 1, 2, 0, 0], 61), ([1, 1, 1, 2, 0, 1], 52), ([1, 1, 1, 2, 1, 0], 57),
+  ([1, 1, 1, 2, 1, 1], 29), ([1, 1, 1, 2, 2, 0], 24), ([1, 1, 1, 2, 2, 1], 16), ([1, 1, 2, 0, 0, 1], 71), ([1, 1, 2, 0, 1, 1], 59), ([1, 1, 2, 0, 2, 1], 30),
+  ([1, 1, 2, 1, 0, 1], 58), ([1, 1, 2, 1, 1, 1], 26), ([1, 1, 2, 1, 2, 1], 15), ([1, 1, 2, 2, 0, 1], 23), ([1, 1, 2, 2, 1, 1], 13), ([1, 1, 2, 2, 2, 1], 6),
+  ([2, 0, 0, 0, 0, 0], 93), ([2, 0, 0, 0, 0, 1], 87), ([2, 0, 0, 0, 1, 0], 86), ([2, 0, 0, 0, 1, 1], 72), ([2, 0, 0, 0, 2, 0], 75), ([2, 0, 0, 0, 2, 1], 58),
+  ([2, 0, 0, 1, 0, 0], 86), ([2, 0, 0, 1, 0, 1], 74), ([2, 0, 0, 1, 1, 0], 74), ([2, 0, 0, 1, 1, 1], 61), ([2, 0, 0, 1, 2, 0], 56), ([2, 0, 0, 1, 2, 1], 34),
+  ([2, 0, 0, 2, 0, 0], 70), ([2, 0, 0, 2, 0, 1], 54), ([2, 0, 0, 2, 1, 0], 52), ([2, 0, 0, 2, 1, 1], 40), ([2, 0, 0, 2, 2, 0], 40), ([2, 0, 0, 2, 2, 1], 22),
+  ([2, 0, 1, 0, 0, 0], 85), ([2, 0, 1, 0, 0, 1], 75), ([2, 0, 1, 0, 1, 0], 74), ([2, 0, 1, 0, 1, 1], 55), ([2, 0, 1, 0, 2, 0], 62), ([2, 0, 1, 0, 2, 1], 51),
+  ([2, 0, 1, 1, 0, 0], 72), ([2, 0, 1, 1, 0, 1], 57), ([2, 0, 1, 1, 1, 0], 55), ([2, 0, 1, 1, 1, 1], 41), ([2, 0, 1, 1, 2, 0], 46), ([2, 0, 1, 1, 2, 1], 19),
+  ([2, 0, 1, 2, 0, 0], 53), ([2, 0, 1, 2, 0, 1], 36), ([2, 0, 1, 2, 1, 0], 34), ([2, 0, 1, 2, 1, 1], 19), ([2, 0, 1, 2, 2, 0], 19), ([2, 0, 1, 2, 2, 1], 8),
+  ([2, 0, 2, 0, 0, 1], 64), ([2, 0, 2, 0, 1, 1], 51), ([2, 0, 2, 0, 2, 1], 20), ([2, 0, 2, 1, 0, 1], 47), ([2, 0, 2, 1, 1, 1], 21), ([2, 0, 2, 1, 2, 1], 11),
+  ([2, 0, 2, 2, 0, 1], 24), ([2, 0, 2, 2, 1, 1], 9), ([2, 0, 2, 2, 2, 1], 4), ([2, 1, 0, 0, 0, 0], 88), ([2, 1, 0, 0, 0, 1], 75), ([2, 1, 0, 0, 1, 0], 73),
+  ([2, 1, 0, 0, 1, 1], 53), ([2, 1, 0, 0, 2, 0], 60), ([2, 1, 0, 0, 2, 1], 50), ([2, 1, 0, 1, 0, 0], 73), ([2, 1, 0, 1, 0, 1], 55), ([2, 1, 0, 1, 1, 0], 59),
+  ([2, 1, 0, 1, 1, 1], 40), ([2, 1, 0, 1, 2, 0], 41), ([2, 1, 0, 1, 2, 1], 20), ([2, 1, 0, 2, 0, 0], 54), ([2, 1, 0, 2, 0, 1], 43), ([2, 1, 0, 2, 1, 0], 45),
+  ([2, 1, 0, 2, 1, 1], 22), ([2, 1, 0, 2, 2, 0], 20), ([2, 1, 0, 2, 2, 1], 11), ([2, 1, 1, 0, 0, 0], 75), ([2, 1, 1, 0, 0, 1], 55), ([2, 1, 1, 0, 1, 0], 58),
+  ([2, 1, 1, 0, 1, 1], 45), ([2, 1, 1, 0, 2, 0], 40), ([2, 1, 1, 0, 2, 1], 21), ([2, 1, 1, 1, 0, 0], 61), ([2, 1, 1, 1, 0, 1], 51), ([2, 1, 1, 1, 1, 0], 48),
+  ([2, 1, 1, 1, 1, 1], 18), ([2, 1, 1, 1, 2, 0], 20), ([2, 1, 1, 1, 2, 1], 9), ([2, 1, 1, 2, 0, 0], 46), ([2, 1, 1, 2, 0, 1], 18), ([2, 1, 1, 2, 1, 0], 17),
+  ([2, 1, 1, 2, 1, 1], 7), ([2, 1, 1, 2, 2, 0], 8), ([2, 1, 1, 2, 2, 1], 2), ([2, 1, 2, 0, 0, 1], 53), ([2, 1, 2, 0, 1, 1], 24), ([2, 1, 2, 0, 2, 1], 14),
+  ([2, 1, 2, 1, 0, 1], 24), ([2, 1, 2, 1, 1, 1], 12), ([2, 1, 2, 1, 2, 1], 5), ([2, 1, 2, 2, 0, 1], 10), ([2, 1, 2, 2, 1, 1], 3), ([2, 1, 2, 2, 2, 1], 1)]
+
 /-- "CVSS:3.1/AV:P/AC:L/PR:N/UI:N/S:U/C:H/I:H/A:H/AV:N": not a vector (AV twice) -/
 def osvDupWitnessA : Bytes := [67, 86, 83, 83, 58, 51, 46, 49, 47, 65, 86, 58, 80, 47, 65, 67, 58, 76, 47, 80, 82, 58, 78, 47, 85, 73, 58, 78, 47, 83, 58, 85, 47, 67, 58, 72, 47, 73, 58, 72, 47, 65, 58, 72, 47, 65, 86, 58, 78]
 
